@@ -276,10 +276,12 @@ impl Prop for Captured {
                 (Tier::Thorough, _, _) => 5,
             };
             // thorough: additionally longer-but-lopsided plain inputs (n,m <= 6, n+m <= 10)
-            let outer = if tier == Tier::Thorough { max.max(6) } else { max };
+            // additionally longer-but-lopsided plain inputs: n,m <= 6 with n+m <= 9 (quick) / 10 (thorough)
+            let outer = max.max(6);
+            let lop = if tier == Tier::Thorough { 10 } else { 9 };
             for n in 0..=outer {
                 for m in 0..=outer {
-                    if (n > max || m > max) && n + m > 10 {
+                    if (n > max || m > max) && n + m > lop {
                         continue;
                     }
                     for layout in small_layouts() {
@@ -383,7 +385,7 @@ impl Prop for Captured {
         Meta {
             functions,
             bounds: format!(
-                "{} x range lengths n,m in 0..={} x layouts {{whole slices, padded slices (1,1 / 2,1), offset lookups at (3,1)}} x entry points {}; symbolic items over an unbounded alphabet{}",
+                "{} x range lengths n,m in 0..={} (plus lopsided whole-slice inputs up to 6 items a side with n+m<=9 quick / 10 thorough through capture_diff) x layouts {{whole slices, padded slices (1,1 / 2,1), offset lookups at (3,1)}} x entry points {}; symbolic items over an unbounded alphabet{}",
                 if self.0 == Which::C03 { "Myers and LCS" } else { "3 algorithms" },
                 max,
                 match self.0 {
